@@ -87,6 +87,7 @@ func runProc(c Case) (ret *retained, obs Obs, nontrivial bool) {
 	e := &el.Event{Type: el.EventType(ty), CreatedAt: tm, Payload: gv, Formatted: formatted}
 	snapBefore := jgen.Snapshot(gv)
 
+	predErr := false
 	predRes := func() (bool, error) {
 		switch c.Pred {
 		case 1:
@@ -94,8 +95,10 @@ func runProc(c Case) (ret *retained, obs Obs, nontrivial bool) {
 		case 2:
 			return false, nil
 		case 4:
+			predErr = true
 			return true, errPred // an error is an error whatever the boolean says
 		}
+		predErr = true
 		return false, errPred
 	}
 	var node el.Node
@@ -171,9 +174,9 @@ func runProc(c Case) (ret *retained, obs Obs, nontrivial bool) {
 	if ok {
 		plLit = "(Some " + mv.Lit() + ")"
 	}
-	prefix := fmt.Sprintf("CProc %d {| c_node := %s; c_type := %s; c_time := %s; c_payload := %s; c_pre := %s;\n   c_obs := {| o_err := %s; o_out := %d; o_table := %s; o_frame := %s; o_decode := %d",
+	prefix := fmt.Sprintf("CProc %d {| c_node := %s; c_type := %s; c_time := %s; c_payload := %s; c_pre := %s;\n   c_obs := {| o_err := %s; o_out := %d; o_table := %s; o_frame := %s; o_decode := %d; o_pred_err := %s",
 		c.ID, nodeLit, jgen.Bytes(ty), jgen.OptBytes([]byte(timeText), c.Time.Encodable()), plLit, preLit,
-		hc.B(obs.Err), obs.Out, jgen.TableLit(e.Formatted, extra), hc.B(obs.Frame), obs.Decode)
+		hc.B(obs.Err), obs.Out, jgen.TableLit(e.Formatted, extra), hc.B(obs.Frame), obs.Decode, hc.B(predErr))
 	// keep the event together with a private copy of what is stored under json right now: it is re-read after later
 	// Process calls on other events (the stored line must stay what was stored)
 	ret = &retained{id: c.ID, prefix: prefix, ev: e}
